@@ -17,7 +17,8 @@ pub const CHECK: Check = Check { id: "C12", level: "exploration", flavours: &["s
 
 const RULE: &str = "positive cases = (generated archive with any interleaving, chosen subset of names incl. empty / one / all / names not \
 in the archive, sink schedule accepting 1..n bytes per write with injected Interrupted): every chosen sink must receive exactly \
-the bytes get_file(name) returns, sinks for absent names nothing, and the call returns Ok. Negative cases = archives encoded by \
+the bytes get_file(name) returns, sinks for absent names nothing, and the call returns Ok; in half of the cases the reader has \
+been used before (get_hash, a file read to its end or abandoned). Negative cases = archives encoded by \
 refimpl from the same block stream with the end-of-data marker removed, or cut in the middle of a record, with a valid index \
 appended (so the archive opens): linear_extract must return Err. Production flavour only: (mlar-linear) archives of 2..1100 \
 files written with the library, every file in 2..3 blocks interleaved round by round or in generated order, extracted with \
@@ -120,6 +121,29 @@ fn oracle(c: &Case, st: &mut Stats) -> Result<(), String> {
         let mut export: HashMap<&String, ThrottledWriter> = HashMap::new();
         for n in &chosen {
             export.insert(n, ThrottledWriter::new(c.sched.clone(), c.interrupt_every as u32));
+        }
+        // the reader handed to linear_extract is not always fresh: in half of the cases it has been used before
+        // (a hash looked up, a file read to its end or abandoned midway) - extraction covers the whole archive anyway
+        if !negative && !names.is_empty() && c.cut % 2 == 1 {
+            let n = &names[util::idx(c.cut, names.len())];
+            match (c.cut / 2) % 3 {
+                0 => {
+                    let _ = rd.get_hash(n);
+                }
+                1 => {
+                    if let Ok(Some(mut f)) = rd.get_file(n.clone()) {
+                        let mut sink = Vec::new();
+                        let _ = std::io::Read::read_to_end(&mut f.data, &mut sink);
+                    }
+                }
+                _ => {
+                    if let Ok(Some(mut f)) = rd.get_file(n.clone()) {
+                        let mut b = [0u8; 3];
+                        let _ = std::io::Read::read(&mut f.data, &mut b);
+                    }
+                }
+            }
+            st.label("reader used before linear_extract");
         }
         let res = linear_extract(&mut rd, &mut export);
         if negative {
